@@ -364,6 +364,50 @@ impl Check for C17Delivery {
                 return fail(format!("files {:?} given as a directory: the output {} is not a sequence of the per-file outputs {:?}", cut_pos, esc_trunc(&d.stdout, 400), per_file.iter().map(|p| esc_trunc(p, 120)).collect::<Vec<_>>()));
             }
         }
+        // a directory argument that holds a symbolic link to another directory: the files
+        // behind the link are read like the files of a real sub-directory (one case in four)
+        if bytes.len() % 4 == 1 {
+            let tgt = dir.join("link-target");
+            let holder = dir.join("with-link");
+            let _ = std::fs::create_dir_all(&tgt);
+            let _ = std::fs::create_dir_all(&holder);
+            let _ = std::fs::write(tgt.join("t.json"), bytes);
+            let _ = std::fs::write(holder.join("own.json"), parts[0]);
+            if std::os::unix::fs::symlink(&tgt, holder.join("zz-link")).is_ok() {
+                let mut a = sv(&["--select=.=v", "--select=&index-in-file=j"]);
+                a.extend(oo.clone());
+                let run_on = |p: &std::path::Path| {
+                    let mut b2 = a.clone();
+                    b2.push(p.to_str().unwrap().to_string());
+                    run(&b2, b"")
+                };
+                let own = run_on(&holder.join("own.json"));
+                let linked = run_on(&holder.join("zz-link").join("t.json"));
+                let both = run_on(&holder);
+                let mut e1 = own.stdout.clone();
+                e1.extend_from_slice(&linked.stdout);
+                let mut e2 = linked.stdout.clone();
+                e2.extend_from_slice(&own.stdout);
+                if !both.res.is_ok() || (both.stdout != e1 && both.stdout != e2) {
+                    cleanup();
+                    return fail(format!("a directory argument with a file and a symbolic link to a directory: result {} output {} is not the two per-file outputs {} and {} in either order", both.res.short(), esc_trunc(&both.stdout, 300), esc_trunc(&own.stdout, 150), esc_trunc(&linked.stdout, 150)));
+                }
+            }
+        }
+        // a named pipe as input file (one case in thirty-two): the same rows as from a regular file
+        if bytes.len() % 32 == 3 {
+            let mut a = plain.clone();
+            let r = crate::fifo::with_fed_fifo(bytes.clone(), |p| {
+                a.push(p.to_string());
+                run(&a, b"")
+            });
+            if let Ok((o, opened)) = r {
+                if !opened || o.stdout != via_stdin.stdout || o.res != via_stdin.res {
+                    cleanup();
+                    return fail(format!("the same bytes from a named pipe given as input file: {} {} (pipe opened: {}) instead of {}", o.res.short(), esc_trunc(&o.stdout, 300), opened, esc_trunc(&via_stdin.stdout, 300)));
+                }
+            }
+        }
         // &index counts through all files
         let mut a = sv(&["--select=&index=i", "--select=&index-in-file=j"]);
         a.extend(oo.clone());
@@ -589,17 +633,73 @@ impl Check for C17Files {
     }
 }
 
+// ---------------------------------------------------------------- more input files than descriptors
+
+/// Input files are read one after the other: a run over more files than the process may hold
+/// open at once still works. The soft RLIMIT_NOFILE is lowered to 96 for the duration of this
+/// one single-threaded case (no other case is running then) and restored afterwards.
+#[derive(Clone, Debug, Serialize, Deserialize)]
+pub struct CaseMany {
+    pub files: u32,
+}
+
+pub struct C17Many;
+impl Check for C17Many {
+    type Case = CaseMany;
+    fn name(&self) -> &'static str {
+        "C17.many_files"
+    }
+    fn cases(&self, _t: Tier) -> u64 {
+        0
+    }
+    fn strategy(&self, _t: Tier) -> BoxedStrategy<CaseMany> {
+        Just(CaseMany { files: 300 }).boxed()
+    }
+    fn check(&self, c: &CaseMany) -> CaseResult {
+        let dir = tmp_dir().join(format!("c17-many-{}", SEQ.fetch_add(1, Ordering::Relaxed)));
+        let _ = std::fs::create_dir_all(&dir);
+        let mut args = sv(&["--select=.k=k", "--select=&index=i", "--select=&index-in-file=j"]);
+        let mut exp = String::new();
+        for i in 0..c.files {
+            let p = dir.join(format!("f{:05}.json", i));
+            if std::fs::write(&p, format!("{{\"k\":{}}}\n", i)).is_err() {
+                let _ = std::fs::remove_dir_all(&dir);
+                return CaseResult::Discard("cannot write temp files".into());
+            }
+            args.push(p.to_str().unwrap().to_string());
+            exp.push_str(&format!("{{\"k\": {}, \"i\": {}, \"j\": 0}}\n", i, i));
+        }
+        let mut old = libc::rlimit { rlim_cur: 0, rlim_max: 0 };
+        let lowered = unsafe { libc::getrlimit(libc::RLIMIT_NOFILE, &mut old) == 0 && old.rlim_cur > 96 && libc::setrlimit(libc::RLIMIT_NOFILE, &libc::rlimit { rlim_cur: 96, rlim_max: old.rlim_max }) == 0 };
+        let o = run(&args, b"");
+        if lowered {
+            unsafe { libc::setrlimit(libc::RLIMIT_NOFILE, &old) };
+        }
+        let _ = std::fs::remove_dir_all(&dir);
+        if !o.res.is_ok() || o.stdout != exp.as_bytes() {
+            return CaseResult::Fail(format!("{} input files with at most 96 open descriptors: result {} and {} rows, expected {} rows (k, &index = file number, &index-in-file = 0); output starts {}", c.files, o.res.short(), o.stdout.iter().filter(|b| **b == b'\n').count(), c.files, esc_trunc(&o.stdout, 200)));
+        }
+        CaseResult::Pass(Info::new(lowered).class_if(lowered, "descriptor_limit_lowered_to_96").obs(json!({"files": c.files})))
+    }
+}
+
 pub fn run_all(ctx: &mut Ctx) {
-    ctx.rule = "0..10 ASCII value texts (independent spellings incl. inner line breaks) with whitespace / touching / garbage gaps x read-chunk schedules (1-byte, random sizes, with Interrupted) x stdin vs file x partitions of the bytes into 1..4 files at arbitrary offsets (also inside a value) x --only-objects-and-arrays. Oracle: identical stdout for every delivery; joint multi-file run = concatenation of single-file runs; &index = 0,1,2.. over the run, &index-in-file restarts per file, &file-name = the path; (line,col) pairs map through the line-feed positions to a byte range that contains the value's text, contiguous with the previous range when nothing lies between. non-trivial = >= 2 files that each yield a row, or >= 3 processed values with >= 2 rows beyond line 1".into();
-    ctx.assumptions = vec!["position checks use ASCII content so that byte and character columns coincide".into()];
+    ctx.rule = "0..10 value texts (ASCII or with raw multi-byte characters) (independent spellings incl. inner line breaks) with whitespace / touching / garbage gaps x read-chunk schedules (1-byte, random sizes, with Interrupted) x stdin vs file x partitions of the bytes into 1..4 files at arbitrary offsets (also inside a value) x --only-objects-and-arrays. Oracle: identical stdout for every delivery; joint multi-file run = concatenation of single-file runs; &index = 0,1,2.. over the run, &index-in-file restarts per file, &file-name = the path; (line,col) pairs map through the line-feed positions to a byte range that contains the value's text, contiguous with the previous range when nothing lies between. non-trivial = >= 2 files that each yield a row, or >= 3 processed values with >= 2 rows beyond line 1".into();
+    ctx.assumptions = vec!["columns are byte columns (the property says byte range); checked on ASCII and on raw multi-byte text".into()];
     ctx.rule.push_str(". C17.delivery_wide: streams over the full Unicode alphabet, long streams (10-100 KiB) and streams with garbage incl. invalid UTF-8 x chunk schedules (1-byte, 1..8, sizes around 16/64/256/4096/8192, with Interrupted) x 4 pipelines x stdin vs file: identical stdout, stderr and result");
     C17Delivery.run(ctx);
     C17Wide.run(ctx);
     ctx.rule.push_str(". C17.files_stateful: 0..11 values from a small set (duplicates and ties) spread over 2..4 files between values (also empty files) x 10 stateful pipelines (--unique, --sort-by, --group-by, --merge, --skip/--take, &index): same result as the values on standard input");
     C17Files.run(ctx);
+    ctx.rule.push_str(". C17.many_files: 300 one-value files in one run while the process may hold at most 96 descriptors: rows, &index and &index-in-file exact");
+    {
+        let c = CaseMany { files: 300 };
+        let r = C17Many.check(&c);
+        ctx.record("C17.many_files", &serde_json::to_value(&c).unwrap(), r);
+    }
     let _ = std::fs::remove_dir_all(tmp_dir());
 }
 
 pub fn checks() -> Vec<Box<dyn DynCheck>> {
-    vec![Box::new(C17Delivery), Box::new(C17Wide), Box::new(C17Files)]
+    vec![Box::new(C17Delivery), Box::new(C17Wide), Box::new(C17Files), Box::new(C17Many)]
 }
